@@ -2,7 +2,8 @@
 (***************************************************************************)
 (* cobald.decorator.standardiser.Standardiser over a pool (property C06).   *)
 (*                                                                         *)
-(* All quantities are integers in HALF units (value v stands for v/2), so   *)
+(* All quantities are integers in grid units (value v stands for v/par.one; *)
+(* par.one = 2: HALF units, the default; par.one = 4: quarter units), so     *)
 (* that fractional limits and fractional granularities exist while every    *)
 (* value is exact both in TLC and as a Python float.  Infinite limits are   *)
 (* the constants PosInf / NegInf, far outside the explored range, so plain  *)
@@ -21,18 +22,22 @@
 (***************************************************************************)
 EXTENDS Integers, TLC
 
-CONSTANTS ParamSet,     \* set of records [min, max, g, surplus, backlog]
+CONSTANTS ParamSet,     \* set of records [min, max, g, surplus, backlog, one]
           Values,       \* demands written / set from outside (half units)
           Supplies,     \* supplies of the pool (half units)
           InitDemands   \* demand of the pool when the decorator is constructed
 
 PosInf == 1000000
 NegInf == 0 - 1000000
-ONE == 2                \* the number 1 in half units
 
 VARIABLES par, supply, tdemand, sdemand, fresh, lastw, act, ret
 
 vars == <<par, supply, tdemand, sdemand, fresh, lastw, act, ret>>
+
+\* the number 1 in grid units: 2 on the half-unit grid; a parameter record may choose a finer
+\* grid (one = 4: quarter units) so that values BETWEEN the multiples of a granularity below 1
+\* exist
+ONE == par.one
 
 Abs(x) == IF x < 0 THEN 0 - x ELSE x
 
@@ -93,7 +98,7 @@ OutsideDemand(d) ==
     /\ act' = [name |-> "OutsideDemand", v |-> d, ty |-> "float"]
     /\ UNCHANGED <<par, supply, sdemand, lastw, ret>>
 
-Tys(v) == IF v % 2 = 0 THEN {"int", "float"} ELSE {"float"}
+Tys(v) == IF v % ONE = 0 THEN {"int", "float"} ELSE {"float"}
 
 Next == \/ \E v \in Values : \E ty \in Tys(v) : Write(v, ty)
         \/ Read
